@@ -242,3 +242,42 @@ Qed.
 
 Example proto_nonvacuous : proto [] evs_same = true /\ run true evs_same server0 <> None.
 Proof. split; [vm_compute; reflexivity|vm_compute; discriminate]. Qed.
+
+(* ------------------------------------------------------------------ raw names *)
+(* two live clients never share a directory - whatever RAW names they announce (the table holds normalised names:
+   spellings of one directory have one key) *)
+Theorem live_dirs_distinct evs s g : grun evs server0 ghost0 = Some (s, g) -> NoDup (map snd (clients s)).
+Proof.
+  intros R. assert (O : owned server0 ghost0) by (split; [constructor|intros k c b body H; discriminate H]).
+  destruct (owned_grun evs server0 ghost0 s g O R) as [ND _]. exact ND.
+Qed.
+
+Definition n_sess : bytes := str "sess".
+Definition str_sess := str "sess".
+Definition str_dot_sess := str "./sess".
+Definition str_sess_slash := str "sess/".
+Definition str_a_up_sess := str "a/../sess".
+Definition str_dd_sess := str ".//sess//".
+Definition str_x_up_sess := str "./x/./../sess".
+Definition str_up_x := str "../x".
+Definition str_abs_up := str "/a/../../b".
+Definition str_abs_up_norm := str "/../b".
+Example aliases_one_key :
+  map norm [str_sess; str_dot_sess; str_sess_slash; str_a_up_sess; str_dd_sess; str_x_up_sess] =
+  [n_sess; n_sess; n_sess; n_sess; n_sess; n_sess] /\
+  norm [] = [46] /\ norm str_up_x = str_up_x /\ norm str_abs_up = str_abs_up_norm.
+Proof. vm_compute. repeat split; reflexivity. Qed.
+
+(* two clients connected at once that announce different spellings of one directory get two directories.
+   (The code as found kept the raw strings apart in its table while the file system identified them: that defect is
+   outside a model whose directories are keyed by name; it is witnessed on the real code by the tie.) *)
+Definition evs_alias : list (N * msg) :=
+  [(1, MDir (str "sess")); (1, MData 11 [65]); (2, MDir (str "./sess/")); (1, MData 11 [66]); (2, MData 22 [67]);
+   (1, MEnd); (2, MEnd)].
+Example aliases_separated :
+  match grun evs_alias server0 ghost0 with
+  | Some (s, _) => fs s n_sess = Some [(n_default_opts, []); (dat_name 11, [65; 66])] /\
+                   fs s (cand_name n_sess 1) = Some [(n_default_opts, []); (dat_name 22, [67])]
+  | None => False
+  end.
+Proof. vm_compute. repeat split; reflexivity. Qed.
